@@ -221,7 +221,10 @@ def run(prog: Program, L: Ledger) -> None:
             if used & comp_names:
                 comp_names.add(st_.targets[0].id)
     idx_t = [t for t in store.targets if isinstance(t, ast.Subscript)][0]
-    L.check(norm(idx_t.slice) in comp_names, "R2", "search_molecules:label-target", f"{rel2}:{store.lineno}", f"label is stored at `{norm(idx_t.slice)}`, not at the members of the component", "atoms of other components are relabelled", norm(store))
+    idx_e = idx_t.slice
+    if isinstance(idx_e, ast.Call) and norm(idx_e.func) in ("np.fromiter", "numpy.fromiter", "list", "np.array", "np.asarray", "sorted") and idx_e.args and norm(idx_e.args[0]) in comp_names:
+        idx_e = idx_e.args[0]
+    L.check(norm(idx_e) in comp_names, "R2", "search_molecules:label-target", f"{rel2}:{store.lineno}", f"label is stored at `{norm(idx_t.slice)}`, not at the members of the component", "atoms of other components are relabelled", norm(store))
     guard_names = set()
     for test, _pol in path:
         guard_names |= {n.id for n in ast.walk(test) if isinstance(n, ast.Name)}
@@ -275,6 +278,11 @@ def run(prog: Program, L: Ledger) -> None:
         L.check(lab is not None and norm(store.value) == lab, "R2", "search_molecules:label-value", f"{rel2}:{store.lineno}", f"stored label `{norm(store.value)}` is not the enumeration index", "two molecules share a label", norm(store))
         g = one_step(comp.args[0]) if comp.args else None
         cname = norm(g.args[0]) if isinstance(g, ast.Call) and g.args else ""
+        direct = isinstance(g, ast.Call) and norm(g.func) in ("nx.Graph", "networkx.Graph") and not g.args and not g.keywords and isinstance(comp.args[0], ast.Name)
+        if direct:
+            _check_direct_graph(L, sm, pre, comp.args[0].id, rel2, loop)
+            L.ok("R2", "search_molecules:return", f"{rel2}:{rets[0].lineno}")
+            return
         L.check(isinstance(g, ast.Call) and norm(g.func) in ("nx.from_numpy_array", "networkx.from_numpy_array", "nx.Graph", "nx.from_numpy_matrix") and bool(cname), "R2", "search_molecules:graph", f"{rel2}:{loop.lineno}", "graph is not built from the connectivity matrix", "", norm(g)[:80] if g is not None else "")
     else:
         cname = ""
@@ -305,6 +313,38 @@ def run(prog: Program, L: Ledger) -> None:
     L.check(fresh, "R2", "search_molecules:connectivity-fresh", f"{rel2}:{cdefs[0].lineno if cdefs else sm0.node.lineno}",
             f"the connectivity matrix is `{detail_c}`, not a zero matrix allocated by this call", "bonds recorded by an earlier call (or left in a shared array) merge molecules that are no longer connected", detail_c)
     L.ok("R2", "search_molecules:return", f"{rel2}:{rets[0].lineno}")
+
+
+def _check_direct_graph(L: Ledger, sm, pre, gname: str, rel2: str, loop) -> None:
+    """Second idiom: the graph is built directly — G = nx.Graph(); G.add_nodes_from(range(len(atoms))) (every atom a node,
+    so isolated atoms are components of their own); G.add_edges_from(zip(i, j)) with (i, j) the neighbour-list pair."""
+    nl = [c for c in calls_in(sm.node) if norm(c.func) in ("neighbor_list", "ase.neighborlist.neighbor_list", "neighborlist.neighbor_list")]
+    oknl = len(nl) == 1 and norm(nl[0].args[0]) == "'ij'" and any(k.arg == "self_interaction" and norm(k.value) == "False" for k in nl[0].keywords) and any(k.arg == "cutoff" and norm(k.value) == "cutoff" for k in nl[0].keywords)
+    L.check(oknl, "R2", "search_molecules:neighbour-list", f"{rel2}:{nl[0].lineno if nl else sm.node.lineno}", "neighbour list is not neighbor_list('ij', atoms, cutoff=cutoff, self_interaction=False)", "self-bonds / wrong cutoff change the components", norm(nl[0])[:100] if nl else "")
+    pair = None
+    for s_ in pre:
+        if isinstance(s_, ast.Assign) and isinstance(s_.value, ast.Call) and nl and s_.value is nl[0] and isinstance(s_.targets[0], ast.Tuple) and len(s_.targets[0].elts) == 2:
+            pair = tuple(norm(x) for x in s_.targets[0].elts)
+    gcalls = [s_.value for s_ in pre if isinstance(s_, ast.Expr) and isinstance(s_.value, ast.Call) and isinstance(s_.value.func, ast.Attribute) and norm(s_.value.func.value) == gname]
+    other_uses = [s_ for s_ in pre if any(isinstance(n, ast.Name) and n.id == gname for n in ast.walk(s_)) and not (isinstance(s_, ast.Expr) and s_.value in gcalls)
+                  and not (isinstance(s_, ast.Assign) and any(isinstance(t, ast.Name) and t.id == gname for t in s_.targets))]
+    nodes = [c for c in gcalls if c.func.attr == "add_nodes_from"]
+    edges = [c for c in gcalls if c.func.attr in ("add_edges_from",)]
+    oknodes = len(nodes) == 1 and len(nodes[0].args) == 1 and norm(nodes[0].args[0]) in ("range(len(atoms))", "range(atoms.get_global_number_of_atoms())", "np.arange(len(atoms))")
+    L.check(oknodes, "R2", "search_molecules:graph", f"{rel2}:{loop.lineno}", "the graph does not get one node per atom (range(len(atoms)))", "isolated atoms are missing from the components and keep the default / get no label", norm(nodes[0])[:80] if nodes else "")
+
+    def strip(e):
+        while isinstance(e, ast.Call) and isinstance(e.func, ast.Attribute) and e.func.attr in ("tolist", "copy") and not e.args:
+            e = e.func.value
+        return norm(e)
+
+    okedges = False
+    if pair is not None and len(edges) == 1 and len(edges[0].args) == 1 and isinstance(edges[0].args[0], ast.Call) and norm(edges[0].args[0].func) == "zip" and len(edges[0].args[0].args) == 2:
+        a_, b_ = (strip(x) for x in edges[0].args[0].args)
+        okedges = {a_, b_} == set(pair)
+    L.check(okedges, "R2", "search_molecules:connectivity", f"{rel2}:{edges[0].lineno if edges else loop.lineno}", "edges are not exactly the neighbour-list pairs", "", norm(edges[0])[:100] if edges else "")
+    extra = [c for c in gcalls if c.func.attr not in ("add_nodes_from", "add_edges_from")]
+    L.check(not extra and not other_uses, "R2", "search_molecules:connectivity-fresh", f"{rel2}:{loop.lineno}", f"the graph is modified or shared in other ways: {[norm(c)[:40] for c in extra] + [norm(u)[:40] for u in other_uses]}", "", "graph")
 
 
 def _assigned_names(st) -> set[str]:
